@@ -15,6 +15,7 @@ import (
 	"time"
 
 	circuit "github.com/rubyist/circuitbreaker"
+	"github.com/smallnest/rpcx/internal/verifhook"
 	"github.com/smallnest/rpcx/log"
 	"github.com/smallnest/rpcx/protocol"
 	"github.com/smallnest/rpcx/share"
@@ -507,6 +508,7 @@ func urlencode(data map[string]string) string {
 }
 
 func (client *Client) send(ctx context.Context, call *Call) {
+	verifhook.At("client.send.enter", call)
 	// Register this call.
 	client.mutex.Lock()
 	if client.shutdown || client.closing {
